@@ -610,9 +610,15 @@ class Interp(object):
             if n == 'itertools.product':
                 import itertools as _it
                 return [tuple(p) for p in _it.product(*[self.iterate(a) for a in args])]
-            if n == 'functools.reduce' and len(args) == 3 and isinstance(args[0], Closure):
-                acc = args[2]
-                for x in self.iterate(args[1]):
+            if n == 'functools.reduce' and len(args) in (2, 3) and isinstance(args[0], Closure):
+                items = list(self.iterate(args[1]))
+                if len(args) == 3:
+                    acc = args[2]
+                elif items:
+                    acc, items = items[0], items[1:]
+                else:
+                    raise Raised('TypeError')           # reduce() of an empty sequence with no initial value
+                for x in items:
                     acc = args[0].interp.call_function(args[0].node, [acc, x], args[0].env)
                 return acc
             if n == 'functools.partial' and args and isinstance(args[0], Closure) and not kwargs:
